@@ -21,7 +21,7 @@ from typing import Any, Dict, List, Optional, Tuple
 
 from ..cfg import cfg_of, ExcTypes
 from ..consteval import ConstEval
-from ..flow import Sym, fpaths, attr_effects
+from ..flow import Sym, fpaths, attr_effects, allfacts
 from ..model import FuncInfo, attr_chain, norm, walk_no_nested
 from ..report import Checker
 
@@ -147,7 +147,7 @@ def run(ch: Checker) -> None:
     for p in fpaths(gs):
         if p.exit_kind != 'return':
             continue
-        fd = dict(p.facts())
+        fd = allfacts(p)
         if fd.get('self.type == httpParserTypes.REQUEST_PARSER') is not True:
             continue
         npaths += 1
@@ -184,7 +184,7 @@ def run(ch: Checker) -> None:
         if not calls:
             continue
         n3 += 1
-        fd = dict(p.facts(calls[0]))
+        fd = allfacts(p, calls[0])
         is_connect = fd.get('self.method == httpMethods.CONNECT')
         sets = [i for i, st_ in p.stmts() if i < calls[0] and isinstance(st_, ast.Assign) and attr_chain(st_.targets[0]) == 'self._is_https_tunnel' and norm(st_.value) == 'True']
         if bool(sets) != bool(is_connect):
@@ -197,7 +197,7 @@ def run(ch: Checker) -> None:
     n4 = 0
     exc = ExcTypes(prog, cu.module)
     for p in fpaths(g, limit=100000):
-        fd = dict(p.facts())
+        fd = allfacts(p)
         if fd.get('host') is False or fd.get('port') is False:
             n4 += 1
             made = any(isinstance(c, ast.Call) and attr_chain(c.func) in ('TcpServerConnection', 'self.upstream_conn_pool.acquire') for i, st_ in p.stmts() for c in walk_no_nested(st_))
@@ -262,7 +262,7 @@ def run(ch: Checker) -> None:
                             if a0 != ap:
                                 bad5 = ('the fall-through resolves %s instead of the address it was given' % a0, p.describe(16))
                         if isinstance(c.func, ast.Attribute) and c.func.attr == 'connect' and attr_chain(c.func) != 'socket.create_connection':
-                            v4 = dict(p.facts(sidx)).get('ip.version == 4')
+                            v4 = allfacts(p, sidx).get('ip.version == 4')
                             a0 = norm(c.args[0]).replace(' ', '') if c.args else ''
                             sock = [norm(s_.value) for j, s_ in p.stmts() if j < sidx and isinstance(s_, ast.Assign) and norm(s_.targets[0]) == norm(c.func.value)]
                             famt = 'AF_INET6' if sock and 'AF_INET6' in sock[-1] else 'AF_INET'
